@@ -23,11 +23,24 @@ verus! {
 
 impl IntSet<u32> {
     pub uninterp spec fn mem(&self, x: u32) -> bool;
+    // proved in unit U14.3 (IntSet::intersect for all four mode combinations)
+    #[verifier::external_body]
+    pub fn intersect(&mut self, other: &IntSet<u32>) ensures forall|x: u32| #![trigger final(self).mem(x)] final(self).mem(x) == (old(self).mem(x) && other.mem(x)) { unimplemented!() }
+    // ASSUMED: nothing (which representation a set happens to use carries no meaning)
+    #[verifier::external_body]
+    pub fn is_inverted(&self) -> (r: bool) { unimplemented!() }
     #[verifier::external_body]
     pub fn is_empty(&self) -> (r: bool) ensures r == (forall|x: u32| !self.mem(x)) { unimplemented!() }
     #[verifier::external_body]
     pub fn intersects_set(&self, other: &IntSet<u32>) -> (r: bool) ensures r == (exists|x: u32| self.mem(x) && other.mem(x)) { unimplemented!() }
 }
+impl<T> Clone for BTreeSet<T> {
+    #[verifier::external_body]
+    fn clone(&self) -> (r: Self) ensures r@ == self@ { unimplemented!() }
+}
+// stands for `a.intersection(b).copied().collect()` (ASSUMED: collects exactly the common elements)
+#[verifier::external_body]
+pub fn collect_intersection(a: &BTreeSet<Tag>, b: &BTreeSet<Tag>) -> (r: BTreeSet<Tag>) ensures r@ == a@.intersect(b@) { unimplemented!() }
 impl<T> BTreeSet<T> {
     pub uninterp spec fn view(&self) -> Set<T>;
     #[verifier::external_body]
@@ -99,6 +112,10 @@ pub struct SubsetDefinition {
     pub codepoints: IntSet<u32>,
     pub feature_tags: FeatureSet,
     pub design_space: DesignSpace,
+}
+impl Clone for SubsetDefinition {
+    #[verifier::external_body]
+    fn clone(&self) -> (r: Self) ensures r == *self { unimplemented!() }
 }
 //@require source=pm seq="struct Entry { subset_definition: SubsetDefinition, child_indices: Vec<usize>, conjunctive_child_match: bool, ignored: bool, uri: PatchUri, }"
 pub struct Entry {
@@ -211,6 +228,24 @@ impl DesignSpace {
         ensures r == self.empty_spec()
 //@at body-start
         proof { lemma_ds_cases(self, self); }
+//@end
+}
+
+impl SubsetDefinition {
+    // ASSUMED (loop over a HashMap collecting RangeSet intersections): the design space both sides share
+    #[verifier::external_body]
+    fn design_space_intersection(&self, other_design_space: &DesignSpace) -> (r: DesignSpace)
+        ensures forall|t: Tag, x: Fixed| r.has(t, x) == (self.design_space.has(t, x) && other_design_space.has(t, x))
+    { unimplemented!() }
+    // C19 "the largest intersection": what IntersectionInfo measures is the component-wise intersection of the entry's definition
+    // with the requested one
+//@extract source=pm container="impl SubsetDefinition" fn=intersection ret=r
+//@rewrite "a.intersection(b).copied().collect()" => "collect_intersection(a, b)"
+//@spec
+        ensures
+            forall|x: u32| r.codepoints.mem(x) == (self.codepoints.mem(x) && other.codepoints.mem(x)),
+            forall|t: Tag| r.feature_tags.has(t) == (self.feature_tags.has(t) && other.feature_tags.has(t)),
+            forall|t: Tag, x: Fixed| r.design_space.has(t, x) == (self.design_space.has(t, x) && other.design_space.has(t, x)),
 //@end
 }
 
